@@ -83,6 +83,9 @@ func fq(tok string) string {
 	if tok[0] == 'm' {
 		return "n" + tok[1:] + ".z.test." // the AAAA side of name n<k>
 	}
+	if tok[0] == 'q' {
+		return "v" + tok[1:] + ".qz.test." // an owner of the NSEC3-signed proof zone
+	}
 	return tok + ".z.test."
 }
 
@@ -121,7 +124,7 @@ func parseUp(s string) map[string]*specT {
 		sp := &specT{name: name, kind: f[0][0], ans: parseItems(f[1]), ns: parseItems(f[2])}
 		if sp.kind == 'c' {
 			sp.tgt = name[:1] + f[0][1:] // an alias is chased with the question's own type
-			if f[0][1] == 'p' || f[0][1] == 'u' {
+			if f[0][1] == 'p' || f[0][1] == 'u' || f[0][1] == 'q' {
 				sp.tgt = f[0][1:] // alias onto a name of the proof zone / below a subtree cut
 			}
 		}
@@ -320,7 +323,11 @@ func histNew(f []string) vlib.Res {
 	if len(f) > 5 {
 		expire = uint32(vlib.AtoU64(f[5]))
 	}
-	cfg := &config.Config{CacheSize: 1024, Expire: expire, CookieSecret: "6c6f6f6b61686172646c6f6f6b6168617264"}
+	size := 1024
+	if len(f) > 6 {
+		size = vlib.Atoi(f[6]) // below 1024: cache.New takes its "using defaults" fallback
+	}
+	cfg := &config.Config{CacheSize: size, Expire: expire, CookieSecret: "6c6f6f6b61686172646c6f6f6b6168617264"}
 	cfg.ECS = config.ECSConfig{Enabled: true, ForwardV4Max: 24, ForwardV6Max: 56, MinScopeV4: 24, MinScopeV6: 56,
 		ClientNetworks: []string{"198.51.100.0/24"}, CacheLimitTTL: config.Duration{Duration: time.Duration(capS) * time.Second}}
 	pf := 0
@@ -340,6 +347,7 @@ func histNew(f []string) vlib.Res {
 	reg.Register("upstream", func(c *config.Config) middleware.Handler { return h.up })
 	h.pipe = reg.Build(cfg)
 	middleware.VerifC04AutoWire(h.pipe)
+	h.c.SetDNSSECCryptoLimiter(openLimiter{}) // NSEC3 proof lookups need the shared crypto gate
 	if pf > 0 {
 		// real hits claim refreshes; they stay queued until `c pfrun`
 		cache.VerifC04HoldPrefetch(h.c)
@@ -526,7 +534,16 @@ func replyRecs(qtok string, m *dns.Msg, side byte) []recTok {
 			if strings.HasPrefix(o, "ns.") {
 				return o[3:]
 			}
-			if lo := strings.ToLower(owner); lo == "pz.test." {
+			if lo := strings.ToLower(owner); lo == "qz.test." {
+				return "tz"
+			} else if strings.HasSuffix(lo, ".qz.test.") {
+				for i := 1; i <= 3; i++ {
+					if strings.HasPrefix(lo, strings.ToLower(nsec3Hash(i))+".") {
+						return fmt.Sprintf("t%d", i)
+					}
+				}
+				return "?" + o
+			} else if lo == "pz.test." {
 				return "sz"
 			} else if strings.HasSuffix(lo, ".pz.test.") && strings.HasPrefix(lo, "w") {
 				return "s" + strings.TrimSuffix(lo[1:], ".pz.test.")
@@ -546,6 +563,8 @@ func replyRecs(qtok string, m *dns.Msg, side byte) []recTok {
 		if cn, ok := rr.(*dns.CNAME); ok {
 			if lo := strings.ToLower(cn.Target); strings.HasSuffix(lo, ".pz.test.") {
 				rt.tgt = "p" + strings.TrimSuffix(strings.TrimPrefix(lo, "w"), ".pz.test.")
+			} else if strings.HasSuffix(lo, ".qz.test.") {
+				rt.tgt = "q" + strings.TrimSuffix(strings.TrimPrefix(lo, "v"), ".qz.test.")
 			} else {
 				rt.tgt = tokOf(cn.Target, false)
 			}
@@ -709,8 +728,11 @@ func (h *histT) originOf(r recTok) (*orec, bool) {
 	if r.fresh {
 		return nil, true
 	}
-	if r.tok[0] == 's' {
-		return h.origins[fmt.Sprintf("%s#%d", r.tok, r.mark)], false
+	if r.tok[0] == 's' || r.tok[0] == 't' {
+		if o := h.origins[fmt.Sprintf("%s#%d", r.tok, r.mark)]; o != nil || r.mark >= 0 {
+			return o, false
+		}
+		return h.origins[r.tok+"#cur"], false // an NSEC3 record itself carries no mark
 	}
 	if r.mark >= 0 {
 		return h.origins[fmt.Sprintf("%s#%d", r.tok, r.mark)], false
@@ -752,8 +774,17 @@ func (h *histT) judgeReply(qtok string, recs []recTok, freshCalls map[string]int
 			holder = fmt.Sprintf("%s#cut%d", qtok, o.gen)
 		}
 	}
-	if qtok[0] == 'p' {
+	if qtok[0] == 'p' || qtok[0] == 'q' {
+		// per composition of the same stored pieces: a later admission may replace the zone's
+		// SOA entry (or the owner's NSEC entry) with a longer-lived one
 		holder = qtok + "#synth"
+		seenP := map[string]bool{}
+		for _, r := range recs {
+			if id := fmt.Sprintf("%s#%d", r.tok, r.mark); !seenP[id] && r.typ != dns.TypeNSEC || !seenP[id] && r.typ == dns.TypeNSEC {
+				seenP[id] = true
+				holder += "," + id
+			}
+		}
 		// a synthesised denial is one composed answer: it inherits the
 		// shortest lifetime among the SOA currently cached for the zone and
 		// the proof RRsets it was built from — on every record
@@ -958,7 +989,7 @@ func (h *histT) register(chs []change, script map[string]*specT, recs []recTok, 
 				}
 			}
 			for _, t := range chainAfter(recs, c.k.tok) {
-				if !isNameTok(t) && t[0] != 's' && t[0] != 'd' {
+				if !isNameTok(t) && t[0] != 's' && t[0] != 'd' && t[0] != 't' {
 					continue
 				}
 				var origins []*orec
@@ -1099,7 +1130,9 @@ func execHist(f []string) vlib.Res {
 	case "cutrec":
 		return h.cutrec(f[2], f[3], f[4])
 	case "prec":
-		return h.prec(f[2], f[3], f[4])
+		return h.prec('p', f[2], f[3], f[4])
+	case "prec3":
+		return h.prec('q', f[2], f[3], f[4])
 	case "get":
 		return h.storeGet(f[2])
 	case "pfrun":
@@ -1410,12 +1443,35 @@ func (h *histT) cutrec(k, itemS, leaseS string) vlib.Res {
 // proof for owner w<i>.pz.test. (SOA + RRSIG, NSEC + RRSIG) through
 // Store.RecordDenialProof.  Every admission replaces the zone's one SOA
 // entry; the NSEC entry of owner i is its own piece.
-func (h *histT) prec(k, itemS, leaseS string) vlib.Res {
+type openLimiter struct{}
+
+func (openLimiter) TryAcquire() (func(), bool) { return func() {}, true }
+
+// nsec3Hash: the NSEC3 owner hash of v<i>.qz.test. (SHA-1, no salt, 0 iterations).
+func nsec3Hash(i int) string { return dns.HashName(fmt.Sprintf("v%d.qz.test.", i), dns.SHA1, 0, "") }
+
+// nsec3Next: the owner hashes of v1..v3 form one ring.
+func nsec3Next(i int) string {
+	hs := []string{nsec3Hash(1), nsec3Hash(2), nsec3Hash(3)}
+	sort.Strings(hs)
+	for j, x := range hs {
+		if x == nsec3Hash(i) {
+			return hs[(j+1)%len(hs)]
+		}
+	}
+	return nsec3Hash(i)
+}
+
+// prec: zone 'p' = NSEC-signed pz.test. (`c prec`), 'q' = NSEC3-signed qz.test. (`c prec3`).
+func (h *histT) prec(zl byte, k, itemS, leaseS string) vlib.Res {
 	h.j++
 	items := parseItems(itemS)
 	h.marks++
 	mark := 1 + h.marks%250
-	owner := "w" + k + ".pz.test."
+	zone, owner, stok, ztok := "pz.test.", "w"+k+".pz.test.", "s"+k, "sz"
+	if zl == 'q' {
+		zone, owner, stok, ztok = "qz.test.", "v"+k+".qz.test.", "t"+k, "tz"
+	}
 	waitRoom()
 	h.sync()
 	base := time.Now().Unix()
@@ -1427,22 +1483,32 @@ func (h *histT) prec(k, itemS, leaseS string) vlib.Res {
 	for _, it := range items {
 		switch it.kind {
 		case 's':
-			so := mkSOA("pz.test.", it.ttl, uint32(it.a))
+			so := mkSOA(zone, it.ttl, uint32(it.a))
 			so.Serial = uint32(mark)
 			proof.Ns = append(proof.Ns, so)
 		case 'p':
+			if zl == 'q' {
+				ki := vlib.Atoi(k)
+				proof.Ns = append(proof.Ns, &dns.NSEC3{Hdr: dns.RR_Header{Name: nsec3Hash(ki) + "." + zone, Rrtype: dns.TypeNSEC3, Class: dns.ClassINET, Ttl: it.ttl},
+					Hash: dns.SHA1, Flags: 0, Iterations: 0, SaltLength: 0, Salt: "", HashLength: 20, NextDomain: nsec3Next(ki),
+					TypeBitMap: []uint16{dns.TypeAAAA, dns.TypeRRSIG}})
+				break
+			}
 			proof.Ns = append(proof.Ns, &dns.NSEC{Hdr: dns.RR_Header{Name: owner, Rrtype: dns.TypeNSEC, Class: dns.ClassINET, Ttl: it.ttl},
 				NextDomain: "w" + k + "z.pz.test.", TypeBitMap: []uint16{dns.TypeAAAA, dns.TypeRRSIG, dns.TypeNSEC, uint16(1000 + mark)}})
 		case 'g':
-			o, cov := "pz.test.", dns.TypeSOA
+			o, cov := zone, dns.TypeSOA
 			if ng > 0 {
 				o, cov = owner, dns.TypeNSEC
+				if zl == 'q' {
+					o, cov = nsec3Hash(vlib.Atoi(k))+"."+zone, dns.TypeNSEC3
+				}
 			}
 			ng++
 			sg := mkSig(o, it.ttl, sigExp(base, it.b))
 			sg.OrigTtl = uint32(it.a)
 			sg.TypeCovered = cov
-			sg.SignerName = "pz.test."
+			sg.SignerName = zone
 			sg.KeyTag = uint16(mark)
 			sg.Labels = uint8(dns.CountLabel(o))
 			proof.Ns = append(proof.Ns, sg)
@@ -1452,12 +1518,20 @@ func (h *histT) prec(k, itemS, leaseS string) vlib.Res {
 	if leaseS != "-" {
 		cu = h.syncAt.Add(time.Duration(vlib.AtoI64(leaseS)) * time.Second)
 	}
-	ok := cache.VerifC04Store(h.c).RecordDenialProof(proof, "pz.test.", middleware.ValidatedNegativeProofNSEC, cu)
+	kind := middleware.ValidatedNegativeProofNSEC
+	if zl == 'q' {
+		kind = middleware.ValidatedNegativeProofNSEC3
+	}
+	ok := cache.VerifC04Store(h.c).RecordDenialProof(proof, zone, kind, cu)
 	if !ok {
 		return vlib.Res{Impl: "f", Oracle: "ok", Tags: "nt"}
 	}
 	h.settle(true)
-	soaE, nsecE := cache.VerifC04ProofExpiries(h.c, "pz.test.", owner)
+	pOwner := owner
+	if zl == 'q' {
+		pOwner = nsec3Hash(vlib.Atoi(k)) + "." + zone
+	}
+	soaE, nsecE := cache.VerifC04ProofExpiries(h.c, zone, pOwner)
 	gotS, gotN := h.ceilRel(h.virt(soaE)-h.vnow()), h.ceilRel(h.virt(nsecE)-h.vnow())
 	// oracle: no floor; the SOA piece outlives no component of the SOA RRset
 	// and the lease, the NSEC piece none of both RRsets and the lease
@@ -1501,8 +1575,9 @@ func (h *histT) prec(k, itemS, leaseS string) vlib.Res {
 	}
 	so := &orec{gen: h.marks, admitV: h.V, life: lifeS, lim: "soa-" + limS, nsLife: lifeS, nsLim: "soa-" + limS, lastShown: -1, mark: mark}
 	no := &orec{gen: h.marks, admitV: h.V, life: lifeN, lim: "proof-" + limN, nsLife: lifeN, nsLim: "proof-" + limN, lastShown: -1, mark: mark}
-	h.origins[fmt.Sprintf("sz#%d", mark)] = so
-	h.origins[fmt.Sprintf("s%s#%d", k, mark)] = no
+	h.origins[fmt.Sprintf("%s#%d", ztok, mark)] = so
+	h.origins[fmt.Sprintf("%s#%d", stok, mark)] = no
+	h.origins[stok+"#cur"] = no
 	return vlib.Res{Impl: fmt.Sprintf("t soa=%d nsec=%d", gotS, gotN), Oracle: or, Tags: "nt,lim=" + limS}
 }
 
@@ -1516,13 +1591,30 @@ func (h *histT) judgeDNS64(qtok string, recs []recTok, script map[string]*specT,
 	if qtok[0] != 'm' {
 		return ""
 	}
-	o := h.led[slotKey{qtok, false}]
-	if o == nil || o.negTTL < 0 {
-		return "" // the AAAA side was an alias chain / had no SOA: RFC 6147's 600 s ceiling applies
-	}
-	bound, what := o.admitV+o.life-h.V-1, "remaining-of-cached-nodata/"+o.lim
+	var bound int64
+	var what string
 	if answered[qtok] > 0 {
-		bound, what = o.negTTL, "negative-ttl-of-nodata"
+		// fetched in this op: judged by what the upstream said (it may not even have been stored)
+		sp := script[qtok]
+		if sp == nil || sp.kind != 'd' {
+			return ""
+		}
+		bound = -1
+		for _, it := range sp.ns {
+			if it.kind == 's' {
+				bound, what = min64(int64(it.ttl), it.a), "negative-ttl-of-nodata"
+				break
+			}
+		}
+		if bound < 0 {
+			return ""
+		}
+	} else {
+		o := h.led[slotKey{qtok, false}]
+		if o == nil || o.negTTL < 0 {
+			return "" // the AAAA side was an alias chain / had no SOA: RFC 6147's 600 s ceiling applies
+		}
+		bound, what = o.admitV+o.life-h.V-1, "remaining-of-cached-nodata/"+o.lim
 	}
 	for _, r := range recs {
 		if !r.ns && r.ttl > bound {
@@ -1621,7 +1713,11 @@ func (h *histT) pfrun(up string) vlib.Res {
 	if or == "" {
 		or = "ok"
 	}
-	tags := fmt.Sprintf("nt,pfrun,claimed=%d", len(reqs))
+	var who []string
+	for _, r := range reqs {
+		who = append(who, strings.TrimSuffix(strings.ToLower(r.Request.Question[0].Name), ".z.test.")+dns.TypeToString[r.Request.Question[0].Qtype])
+	}
+	tags := fmt.Sprintf("nt,pfrun,claimed=%d,who=%s", len(reqs), strings.Join(who, "+"))
 	if stale > 0 {
 		tags += ",stale-refresh"
 	}
